@@ -2,8 +2,8 @@
 # usage: seedown.sh <root of candidate seed dirs named CNN-...> : runs each candidate's own check on a scratch worktree
 export GOFLAGS=-mod=mod GOPROXY=off GOSUMDB=off GOTOOLCHAIN=local; unset GOWORK
 root=$1
-bin=/tmp/akv; [ -x $bin ] || bin=/verif/bin/akverif
-wt=/tmp/trywt; [ -d $wt ] || git -C /repo worktree add -q --detach $wt HEAD || exit 3
+bin=${AKV:-/tmp/akv}; [ -x $bin ] || bin=/verif/bin/akverif
+wt=${WT:-/tmp/trywt}; [ -d $wt ] || git -C /repo worktree add -q --detach $wt HEAD || exit 3
 mkdir -p /tmp/akvhome/evidence; cp /verif/known_findings.json /tmp/akvhome/
 for d in $(ls $root); do
   id=${d:0:3}
